@@ -62,6 +62,9 @@ TEMPLATES = [
     ("in-negation-operand", lambda R: alt(seq({"op": "neg", "kid": grp("once", seq(RNC(R), A))}, B), A)),
     ("in-negation-operand-captured", lambda R: seq({"op": "neg", "kid": grp("once", seq(R, A))}, B, L)),
     ("after-negation-operand", lambda R: seq({"op": "neg", "kid": grp("once", seq(A, B))}, R)),
+    # a nullable alternative (it can fail without consuming: it starts with a lookahead group) BEFORE the recursive alternative
+    ("nullable-alt-before", lambda R: alt(seq(look(True, B), grp("opt", A)), seq(R, B))),
+    ("nullable-alt-before-2", lambda R: alt(grp("star", A), seq(R, B))),
     ("terminal", None),
 ]
 
@@ -137,7 +140,10 @@ def family(rng, quick):
           ("after-two-nullable-prods", lambda R, N: seq(N, N, R)),
           ("after-nullable-prod-in-opt", lambda R, N: seq(grp("opt", seq(N, N)), R, L)),
           ("after-nullable-prod-then-token", lambda R, N: seq(N, A, R)),
-          ("nullable-prod-between-alternatives", lambda R, N: alt(seq(A, B), seq(N, N, R)))]
+          ("nullable-prod-between-alternatives", lambda R, N: alt(seq(A, B), seq(N, N, R))),
+          # a + group whose body is a nullable production (it matches nothing, yet yields a value)
+          ("after-plus-of-nullable-prod", lambda R, N: seq(grp("plus", N), R, A)),
+          ("after-plus-of-nullable-prod-then-token", lambda R, N: seq(grp("plus", N), A, R))]
     for ti, (tname, fn) in enumerate(tn):
         for target in ("P0", "P1"):
             for p1t in range(0, len(TEMPLATES) - 1, 3):
@@ -283,6 +289,7 @@ def run(pid, tier, args):
         inputs = [" ".join(t) for n in range(0, 4) for t in itertools.product(["a", "b", "("], repeat=n)]
         for g in sample:
             g["inputs"] = [{"s": s_, "toks": GG.lex(s_)} for s_ in inputs]
+            g["maxiter"] = 2000   # (a repetition whose body matches nothing spins up to the iteration limit: keep that short)
         pp = os.path.join(wd, "accepted.json")
         json.dump(sample, open(pp, "w"))
         env = dict(vlib.GOENV, VH_MAXSTACK=str(64 << 20))
